@@ -84,9 +84,15 @@ def run(ctx: Ctx):
         if res.get(k) != "ModelFitError":
             ctx.violation(f"a data set too small to split ({k}) is {res.get(k)} instead of refused with ModelFitError", {"case": k, "observed": res.get(k)}, key="min-samples")
     # ---- grid selection
+    n_minfail = 0
     for r, o in zip(runs, res["runs"]):
         ctx.count(["grid", r], True, sample={"grid": r["grid"], "result": o})
         if "error" in o:
+            if str(o["error"]).startswith("MinimizationFailure"):
+                # scipy's optimiser gave up on this data set (precision loss) during the refit and formak says so by raising:
+                # nothing was selected or exported, so the property says nothing about this run
+                n_minfail += 1
+                continue
             ctx.violation(f"grid search over a valid grid failed: {o['error']}", {"run": r, "error": o}, key="grid-failed")
             continue
         g = r["grid"]
@@ -112,7 +118,11 @@ def run(ctx: Ctx):
                 ctx.violation(f"exported filter carries {fld} = {ex[fld]!r}, the selected value is {sel[fld]!r}", {"run": r, "observed": o}, key="export-differs")
         if o["history"] != exp_hist["Fit_Model"]:
             ctx.violation(f"history after fitting is {o['history']}", {"observed": o}, key="history")
-    ctx.cov["input_distribution"] = {"search_pairs": 9, "non_state_targets": len(res["non_state"]), "grid_runs": n_runs}
+    if 2 * n_minfail > len(runs):
+        ctx.broken.append({"kind": "correspondence", "name": "grid-search stream: most fits end in MinimizationFailure, so selection and export are no longer exercised",
+                           "detail": f"{n_minfail} of {len(runs)} runs"})
+    ctx.cov["input_distribution"] = {"search_pairs": 9, "non_state_targets": len(res["non_state"]), "grid_runs": n_runs,
+                                     "grid_runs_optimiser_gave_up": n_minfail}
     ctx.cov["exhaustive"] = True
     ctx.cov["traces_validated_against_impl"] = 9
     return ("all 3 x 3 (start, target) pairs searched on real workflow objects (including a really fitted state) and compared with the Coq table; "
